@@ -443,7 +443,8 @@ pub fn run_level_b(
                             LineEdit::Removed { old } => lines.insert(line - 1, old.clone()),
                         }
                         let base_path = renamed_from.as_deref().unwrap_or(&f.path);
-                        write_file(&root, base_path, &(lines.join("\n") + "\n"));
+                        let nl = if rendered[i].no_final_newline { "" } else { "\n" };
+                        write_file(&root, base_path, &(lines.join("\n") + nl));
                     }
                     FileDiff::Added => {}
                 }
@@ -556,7 +557,8 @@ pub fn run_level_b(
             Some(sections.concat())
         }
         (_, own) => own.clone(),
-    };
+    }
+    .map(|t| world.with_noise(t, plan.diff_seed));
 
     // ---- endpoint
     let endpoint = if world.env.ai_refuse_connections {
